@@ -388,6 +388,7 @@ func (c *Ctx) resetCase() {
 	c.spawned = nil
 	c.trace = nil
 	c.mapOrder = 0
+	c.selectOrder = 0
 	c.sentinels = map[string]*Iface{}
 	c.usedNames = map[string]bool{}
 	c.assertLabels = map[string]int{}
